@@ -43,7 +43,11 @@ func analyseLoops(fn *ssa.Function) (map[*ssa.BasicBlock]*loopInfo, []*loopInfo)
 	// source order: by position of the first instruction with a valid position in the header, fallback block index
 	pos := func(li *loopInfo) int {
 		best := token.Pos(0)
+		// phis carry the position of the variable's declaration, not of the loop: ignore them
 		for _, in := range li.header.Instrs {
+			if _, isPhi := in.(*ssa.Phi); isPhi {
+				continue
+			}
 			if p := in.Pos(); p.IsValid() && (best == 0 || p < best) {
 				best = p
 			}
@@ -53,6 +57,12 @@ func analyseLoops(fn *ssa.Function) (map[*ssa.BasicBlock]*loopInfo, []*loopInfo)
 		}
 		for b := range li.blocks {
 			for _, in := range b.Instrs {
+				if _, isPhi := in.(*ssa.Phi); isPhi {
+					continue
+				}
+				if _, isDbg := in.(*ssa.DebugRef); isDbg {
+					continue
+				}
 				if p := in.Pos(); p.IsValid() && (best == 0 || p < best) {
 					best = p
 				}
